@@ -595,7 +595,7 @@ func TestC18(t *testing.T) {
 		rapid.Check(t, func(rt *rapid.T) {
 			var sc *Scenario
 			if rapid.Bool().Draw(rt, "pip10") {
-				sc, _ = genPIP10Scenario(rt, st)
+				sc, _ = genPIP10ScenarioGaps(rt, st, !Open("C18/stale-rich-list-reload"))
 			} else {
 				cfg := DefaultCfg()
 				cfg.MinBlocks, cfg.MaxBlocks = 5, 12
@@ -699,7 +699,7 @@ func TestC18(t *testing.T) {
 				seed = seed*100 + uint64(r)
 			}
 			sc = rapid.Custom(func(rt *rapid.T) *Scenario {
-				s, _ := genPIP10Scenario(rt, st)
+				s, _ := genPIP10ScenarioGaps(rt, st, !Open("C18/stale-rich-list-reload"))
 				return s
 			}).Example(int(seed))
 			dir, done := caseDir()
@@ -835,6 +835,101 @@ func init() {
 			return false, "harness: " + err.Error(), nil
 		}
 		return viol != "", viol, c
+	})
+	RegisterProbe("C18/stale-rich-list-reload", func() (bool, string, interface{}) {
+		// window 4, an ungraded height in the middle, a conversion in every block. A rich-list request
+		// reads "the latest rated height" early, is held up (a slow client, a descheduled goroutine) while
+		// the sync loop moves on past the ungraded height, and then asks the shared cache for the averages
+		// of that older height: the cache reloads by height, and so does the sync loop at its next block.
+		start := uint32(144*5 + 10)
+		era := ModernEra(start)
+		era.PIP10, era.AvgPeriod, era.AvgRequired = start, 4, 2
+		w := newDetWorld(era, 40)
+		a := w.Actors[0]
+		for i := 0; i < 14; i++ {
+			b := &Block{}
+			if i != 6 {
+				for j := range w.Price {
+					w.Price[j] += w.Price[j] / 17
+				}
+				b.OPR = w.DetOPRSet(26)
+			}
+			if i >= 1 {
+				b.TX = []Entry{FATEntry(w.H(), 1, int64(i), a, []Tx{{From: a.FA(), Asset: "PEG", Amt: 10e8, Conv: "pUSD"}})}
+			}
+			w.Commit(b)
+		}
+		sc := w.Scenario()
+		dir, done := caseDir()
+		defer done()
+		_, ref, err := RunPlain(sc, dir+"/ref", NodeOpts{})
+		if err != nil {
+			return false, "harness: " + err.Error(), nil
+		}
+		hv := &atomic.Value{}
+		var n *Node
+		var committed, cur uint32
+		var fired, held int32
+		var api *API
+		reqDone := make(chan struct{})
+		hv.Store(SQLHook(func(ev *SQLEvent) error {
+			if n == nil {
+				return nil
+			}
+			if ev.GID == atomic.LoadInt64(&n.Fake.syncGID) {
+				if ev.After && ev.Op == "begin" {
+					atomic.StoreUint32(&cur, n.P.Sync.Synced+1)
+				}
+				if ev.After && ev.Op == "commit" && ev.InTx && ev.Err == nil {
+					atomic.StoreUint32(&committed, atomic.LoadUint32(&cur))
+					if atomic.LoadUint32(&committed) == start+5 && atomic.CompareAndSwapInt32(&fired, 0, 1) {
+						go func() {
+							api.Call("get-rich-list", map[string]interface{}{"asset": "pUSD", "count": 5})
+							close(reqDone)
+						}()
+						// give the handler time to read the sync height and issue its first query
+						for i := 0; i < 2000 && atomic.LoadInt32(&held) == 0; i++ {
+							time.Sleep(time.Millisecond)
+						}
+					}
+				}
+				return nil
+			}
+			// the API handler: held after its first SQL call (latest rated height read) until the sync
+			// loop has committed four more blocks
+			if ev.After && atomic.CompareAndSwapInt32(&held, 0, 1) {
+				for i := 0; i < 5000 && atomic.LoadUint32(&committed) < start+10; i++ {
+					time.Sleep(time.Millisecond)
+				}
+			}
+			return nil
+		}))
+		n, err = OpenNode(dir+"/api", sc.Era, sc.Chain, NodeOpts{SQLHook: hv})
+		if err != nil {
+			return false, "harness: " + err.Error(), nil
+		}
+		defer n.Close()
+		if api, err = StartAPI(n); err != nil {
+			return false, "harness: " + err.Error(), nil
+		}
+		res := n.SyncTo(sc.Chain.Tip, SyncOpts{})
+		if atomic.LoadInt32(&fired) == 1 {
+			select {
+			case <-reqDone:
+			case <-time.After(10 * time.Second):
+			}
+		}
+		if !res.OK(sc.Chain.Tip) {
+			return false, "harness: probe chain did not sync: " + res.String(), nil
+		}
+		d, err := DumpLedger(n.P.Pegnet.DB)
+		if err != nil {
+			return false, "harness: " + err.Error(), nil
+		}
+		if diff := ref.Diff(d); diff != "" {
+			return true, "a rich-list request held up between reading the sync height and asking for the averages changed later conversion amounts: " + trunc(diff, 400), sc
+		}
+		return false, "the delayed rich-list request left the ledger unchanged", nil
 	})
 	RegisterProbe("C18/avg-cache-race", func() (bool, string, interface{}) {
 		// needs the race detector: decided by the soak part of the check (any report is a violation once fixed)
